@@ -59,8 +59,23 @@ EXPLANATION = (
     "have an entry, add_peer(p) ends only with p in the writable set, mark_bad_peer(p) ends with p in neither server set; "
     "(1b) R9 through the container: an object created outside a loop and put under several keys of a container whose "
     "held objects are changed in place (C[k].add(..), C.setdefault(k, d).add(..)), and dict.fromkeys(keys, <mutable>) "
-    "with in-place changes, are reported like (1). "
-    "Undecided: that the flow found is maximum once (6)-(8) hold (termination/optimality of Edmonds-Karp), "
+    "with in-place changes, are reported like (1); "
+    "(15) the table the augmentation loop works on is always a flow: created zero (6), it is written by nothing but the "
+    "augmentation pair along an augmenting path - an interprocedural who-writes analysis (levels table / row, followed "
+    "through reaching definitions, aliases, row objects, keyword and positional arguments into every package function the "
+    "table is handed to, residual_network included) finds no other store, in-place method or row replacement; a table that "
+    "leaves the analysable code (unknown callee, attribute, closure) is an analysis error, not a pass; "
+    "(16) the placement is a function of its arguments: in share_placement and every package function it calls no state "
+    "that outlives the call (module-level name re-bound through `global`, module-level container / function or class "
+    "attribute changed from inside a function - also through a local alias - with values that depend on a parameter or on "
+    "such state, mutable default argument changed in place) reaches a branch, a returned value, an argument of another "
+    "function of the computation or an object of the caller; statistics that are only written and values built once from "
+    "constants are not state of earlier calls. "
+    "Undecided: whether a writer other than the augmentation pair (15) happens to leave a valid flow (a warm start that "
+    "records whole source-server-share-sink units within the capacities would be correct; it is reported all the same, "
+    "because conservation and capacity of arbitrary stores are value-level), and whether remembered state (16) is keyed by "
+    "the full contents of the arguments (such a cache would be correct; it is reported as well); "
+    "that the flow found is maximum once (6)-(8) hold (termination/optimality of Edmonds-Karp), "
     "PriorityQueue tie-breaking, set iteration order; evenness of the homeless distribution (priority values and "
     "increments) and the lease-renewal preference; the pruning of the phase-2 servermap in share_placement (it only "
     "preserves existing allocations on writable servers: completeness, read-only exclusion and the size of the spread "
@@ -72,7 +87,8 @@ TECHNIQUE = ("static analysis: CFG cycle/reaching-definition alias rule (R9), no
              "monitor and update-pair normal form for the placement's Edmonds-Karp copy, key-provenance chains and "
              "must-follow (get/put) over the homeless distribution, must-precede with yield as kill for the "
              "selector's use of the placement, CFG x (recorded, key-known-absent) monitor for the selector's "
-             "multimap insertion")
+             "multimap insertion, interprocedural who-writes (escape) analysis of the flow table, taint of "
+             "call-outliving module state into branches / results over the call closure")
 
 HU = "immutable.happiness_upload"
 UP = "immutable.upload"
@@ -1198,6 +1214,795 @@ def ek_helpers_rule(r, idx):
     r.require(isinstance(pinit, ast.ListComp) and isinstance(pinit.elt, ast.Constant) and pinit.elt.value is None
               and norm_plain(pinit.generators[0].iter) == "range(len(%s))" % BG, bf, bf.loc(),
               "the predecessor table must start as None for every vertex (augmenting_path_for tests the sink's entry)")
+
+
+# ===================================== who may change the flow table (rule 15; C08.7 uses it for both copies)
+# The augmentation pair f[u][v] += d / f[v][u] -= d along an augmenting path keeps every invariant of a flow
+# (conservation at the inner vertices, capacity, skew symmetry) and the zero table is a flow, so a table that is
+# changed by nothing else is always a flow.  Rules 6/7 look at the stores they can see inside the loop function;
+# this part decides that nothing else writes: no callee the table is handed to, no alias, no row object.
+_SCALAR_BUILTINS = {"len", "sum", "min", "max", "any", "all", "repr", "str", "print", "id", "isinstance", "type", "bool",
+                    "abs", "hash", "format", "range", "int", "float"}
+_DEEP_COPIERS = {"deepcopy"}
+_ROW_CARRIERS = {"list", "tuple", "sorted", "reversed", "iter", "set", "frozenset", "enumerate", "zip"}
+_TABLE_MUTATORS = _MUTATORS | {"__setitem__", "__delitem__", "__iadd__", "__imul__"}
+_TABLE_READERS = {"copy", "index", "count", "__getitem__", "__len__", "__iter__", "__contains__"}
+
+
+class TableSummary:
+    def __init__(self):
+        self.writes = []      # (fn, ast node, text)
+        self.unknown = []     # (fn, ast node, text)
+        self.handed = []      # (call, [callee quals]) - calls of the analysed function that receive the table / a row
+        self.ret = 0          # level of the value returned
+        self.ret_elts = None  # per-position levels when every return is a tuple display of one length
+        self.states = 0
+
+
+class TableUse:
+    """Interprocedural 'who writes' analysis for a 2-D table (a list of row lists) that is handed around by
+    reference.  Levels: 2 = the table (or a container holding its row objects), 1 = one of its rows, 0 = anything
+    else.  Inside a function the level of a name is taken from its reaching definitions."""
+
+    def __init__(self, idx):
+        self.idx = idx
+        self.cg = get_callgraph(idx)
+        self.memo = {}
+        self.active = set()
+
+    # ---- callee parameters that receive table-level arguments
+    def _bind_args(self, callee, call, levels, kwlevels):
+        a = callee.node.args
+        pos = [x.arg for x in getattr(a, "posonlyargs", [])] + [x.arg for x in a.args]
+        if callee.cls is not None and isinstance(call.func, ast.Attribute) and pos:
+            pos = pos[1:]
+        kwonly = [x.arg for x in a.kwonlyargs]
+        roots = {}
+        for (i, l) in enumerate(levels):
+            if l is None:
+                return None               # starred
+            if l == 0:
+                continue
+            if i < len(pos):
+                roots[pos[i]] = max(roots.get(pos[i], 0), l)
+            else:
+                return None               # *args of the callee
+        for (k, l) in kwlevels:
+            if l == 0:
+                continue
+            if k is None or k not in pos + kwonly:
+                return None
+            roots[k] = max(roots.get(k, 0), l)
+        return roots
+
+    def summary(self, callee, roots, depth):
+        key = (callee.qual, tuple(sorted(roots.items())))
+        if key in self.memo:
+            return self.memo[key]
+        if key in self.active or depth <= 0:
+            s = TableSummary()
+            s.unknown.append((callee, callee.node, "%s (call chain too deep / recursive)" % short(callee)))
+            return s
+        self.active.add(key)
+        try:
+            s = self.analyse(callee, roots=roots, depth=depth)
+        finally:
+            self.active.discard(key)
+        self.memo[key] = s
+        return s
+
+    def analyse(self, fn, roots=None, forced=None, skip=(), depth=4, root=False) -> TableSummary:
+        roots = roots or {}
+        forced = forced or {}
+        cfg = fn.cfg()
+        rd = C.reaching_defs(cfg)
+        reach = cfg.reachable_nodes()
+        lev = dict(forced)
+        out = TableSummary()
+        tu = self
+        local_names = set(fn.params) | {nm for n_ in cfg.nodes for nm in node_stores(n_) if "." not in nm and not nm.endswith("[]")}
+
+        def name_level(n, name, env):
+            if name in env:
+                return env[name]
+            if name not in local_names:
+                return roots.get(name, 0)      # a free variable of a nested function: the enclosing function's object
+            best = 0
+            for d in rd.get(n.id, {}).get(name, ()):
+                best = max(best, roots.get(name, 0) if d < 0 else lev.get((d, name), 0))
+            return best
+
+        def elem(l):
+            return l - 1 if l > 0 else 0
+
+        def comp_env(n, gens, env):
+            env2 = dict(env)
+            for g in gens:
+                bind_target(g.target, g.iter, n, env2, env2)
+            return env2
+
+        def bind_target(t, it, n, env, into):
+            """Bind the target of `for t in it` / a comprehension generator (levels of the elements of `it`)."""
+            it_ = it
+            if isinstance(it_, ast.Call) and isinstance(it_.func, ast.Name) and it_.func.id == "enumerate" and it_.args \
+                    and isinstance(t, (ast.Tuple, ast.List)) and len(t.elts) == 2:
+                bind_names(t.elts[0], 0, into)
+                bind_names(t.elts[1], elem(lvl(n, it_.args[0], env)), into)
+                return
+            if isinstance(it_, ast.Call) and isinstance(it_.func, ast.Name) and it_.func.id == "zip" \
+                    and isinstance(t, (ast.Tuple, ast.List)) and len(t.elts) == len(it_.args):
+                for (tt, aa) in zip(t.elts, it_.args):
+                    bind_names(tt, elem(lvl(n, aa, env)), into)
+                return
+            l = elem(lvl(n, it_, env))
+            if isinstance(t, (ast.Tuple, ast.List)):
+                l = elem(l)
+            bind_names(t, l, into)
+
+        def bind_names(t, l, into):
+            if isinstance(t, ast.Name):
+                into[t.id] = max(into.get(t.id, 0), l) if into is not None else l
+            elif isinstance(t, (ast.Tuple, ast.List)):
+                for e in t.elts:
+                    bind_names(e, l, into)
+            elif isinstance(t, ast.Starred):
+                bind_names(t.value, min(2, l + 1) if l else 0, into)
+
+        def callees_of(c):
+            return [f for f in tu.cg.resolve(fn, c) if isinstance(f, FuncInfo)]
+
+        def call_level(n, c, env):
+            f = c.func
+            args = list(c.args) + [k.value for k in c.keywords]
+            if isinstance(f, ast.Name):
+                if f.id in _SCALAR_BUILTINS or f.id in _DEEP_COPIERS:
+                    return 0
+                if f.id in _ROW_CARRIERS:
+                    m = max([lvl(n, a, env) for a in args] or [0])
+                    return 2 if m == 2 else 0
+            if isinstance(f, ast.Attribute):
+                if call_tail(c) in _DEEP_COPIERS:
+                    return 0
+                b = lvl(n, f.value, env)
+                if b > 0:
+                    if f.attr == "copy":
+                        return 2 if b == 2 else 0
+                    if f.attr in ("pop", "__getitem__"):
+                        return elem(b)
+                    return 0
+            m = max([lvl(n, a, env) for a in args] or [0])
+            if m == 0:
+                return 0
+            cs = callees_of(c)
+            if not cs:
+                return m            # unknown callee: the result may be the argument itself
+            best = 0
+            for callee in cs:
+                rts = tu._bind_args(callee, c, [None if isinstance(a, ast.Starred) else lvl(n, a, env) for a in c.args],
+                                    [(k.arg, lvl(n, k.value, env)) for k in c.keywords])
+                if rts is None:
+                    return m
+                if rts:
+                    best = max(best, tu.summary(callee, rts, depth - 1).ret)
+            return best
+
+        def lvl(n, e, env):
+            if e is None:
+                return 0
+            if isinstance(e, ast.Name):
+                return name_level(n, e.id, env)
+            if isinstance(e, ast.Subscript):
+                if isinstance(e.value, ast.Call) and isinstance(e.slice, ast.Constant) and isinstance(e.slice.value, int):
+                    for callee in callees_of(e.value):
+                        rts = tu._bind_args(callee, e.value,
+                                            [None if isinstance(a, ast.Starred) else lvl(n, a, env) for a in e.value.args],
+                                            [(k.arg, lvl(n, k.value, env)) for k in e.value.keywords])
+                        if rts is not None:
+                            if not rts:
+                                return 0
+                            s = tu.summary(callee, rts, depth - 1)
+                            if s.ret_elts is not None and 0 <= e.slice.value < len(s.ret_elts):
+                                return s.ret_elts[e.slice.value]
+                b = lvl(n, e.value, env)
+                if b == 0:
+                    return 0
+                if isinstance(e.slice, ast.Slice):
+                    return 2 if b == 2 else 0
+                return b - 1
+            if isinstance(e, ast.Starred):
+                return lvl(n, e.value, env)
+            if isinstance(e, (ast.Tuple, ast.List, ast.Set)):
+                m = max([lvl(n, x, env) for x in e.elts] or [0])
+                return min(2, m + 1) if m else 0
+            if isinstance(e, ast.Dict):
+                m = max([lvl(n, x, env) for x in e.values if x is not None] or [0])
+                return min(2, m + 1) if m else 0
+            if isinstance(e, ast.IfExp):
+                return max(lvl(n, e.body, env), lvl(n, e.orelse, env))
+            if isinstance(e, ast.BoolOp):
+                return max(lvl(n, v, env) for v in e.values)
+            if isinstance(e, ast.NamedExpr):
+                return lvl(n, e.value, env)
+            if isinstance(e, ast.BinOp):
+                m = max(lvl(n, e.left, env), lvl(n, e.right, env))
+                return 2 if m == 2 else 0
+            if isinstance(e, (ast.ListComp, ast.SetComp, ast.GeneratorExp)):
+                m = lvl(n, e.elt, comp_env(n, e.generators, env))
+                return min(2, m + 1) if m else 0
+            if isinstance(e, ast.DictComp):
+                m = lvl(n, e.value, comp_env(n, e.generators, env))
+                return min(2, m + 1) if m else 0
+            if isinstance(e, ast.Call):
+                return call_level(n, e, env)
+            return 0
+
+        # ---- levels of the definitions (fixpoint; levels only grow)
+        nodes = [n for n in cfg.nodes if n.id in reach and n.ast is not None]
+        for _round in range(6):
+            changed = False
+            for n in nodes:
+                new = {}
+                a = n.ast
+                if n.kind == "iter":
+                    bind_target(a.target, a.iter, n, {}, new)
+                elif n.kind == "stmt":
+                    for nm in node_stores(n):
+                        if "." in nm or nm.endswith("[]"):
+                            continue
+                        if isinstance(a, ast.AugAssign):
+                            new[nm] = max(name_level(n, nm, {}), lvl(n, a.value, {}))
+                            continue
+                        v = def_value(n, nm)
+                        if v is not None:
+                            new[nm] = lvl(n, v, {})
+                        elif isinstance(a, (ast.Assign, ast.AnnAssign)) and a.value is not None:
+                            new[nm] = lvl(n, a.value, {})
+                    for e in node_exprs(n):
+                        for x in own_nodes(e):
+                            if isinstance(x, ast.NamedExpr) and isinstance(x.target, ast.Name):
+                                new[x.target.id] = max(new.get(x.target.id, 0), lvl(n, x.value, {}))
+                for (nm, l) in new.items():
+                    if (n.id, nm) in forced:
+                        continue
+                    if l > lev.get((n.id, nm), 0):
+                        lev[(n.id, nm)] = l
+                        changed = True
+            if not changed:
+                break
+        out.states = len(nodes)
+
+        # ---- events
+        def targets_of(n):
+            a = n.ast
+            if n.kind == "iter":
+                return [a.target]
+            if n.kind == "with":
+                return [i.optional_vars for i in a.items if i.optional_vars is not None]
+            if n.kind != "stmt":
+                return []
+            if isinstance(a, (ast.Assign, ast.Delete)):
+                return list(a.targets)
+            if isinstance(a, (ast.AugAssign, ast.AnnAssign)):
+                return [a.target]
+            return []
+
+        def flat(ts):
+            for t in ts:
+                if isinstance(t, (ast.Tuple, ast.List)):
+                    for x in flat(t.elts):
+                        yield x
+                elif isinstance(t, ast.Starred):
+                    for x in flat([t.value]):
+                        yield x
+                else:
+                    yield t
+
+        def scan_calls(n, e, env):
+            """Events of the calls inside expression e (comprehension variables get their levels through env)."""
+            if isinstance(e, (ast.ListComp, ast.SetComp, ast.GeneratorExp, ast.DictComp)):
+                env2 = comp_env(n, e.generators, env)
+                for g in e.generators:
+                    scan_calls(n, g.iter, env2)
+                    for i_ in g.ifs:
+                        scan_calls(n, i_, env2)
+                for sub in ([e.key, e.value] if isinstance(e, ast.DictComp) else [e.elt]):
+                    scan_calls(n, sub, env2)
+                return
+            if isinstance(e, ast.Lambda) or isinstance(e, (ast.FunctionDef, ast.AsyncFunctionDef)):
+                body = [e.body] if isinstance(e, ast.Lambda) else e.body
+                bound = {x.arg for x in ast.walk(e.args) if isinstance(x, ast.arg)}
+                for b in body:
+                    for x in ast.walk(b):
+                        if isinstance(x, ast.Name) and isinstance(x.ctx, ast.Load) and x.id not in bound \
+                                and name_level(n, x.id, env) > 0:
+                            out.unknown.append((fn, e, "`%s` is captured by a nested function / lambda" % x.id))
+                            return
+                return
+            if isinstance(e, ast.Call):
+                one_call(n, e, env)
+            if isinstance(e, (ast.Yield, ast.YieldFrom)) and lvl(n, e.value, env) > 0:
+                out.unknown.append((fn, e, "the table is yielded"))
+            for c in ast.iter_child_nodes(e):
+                if isinstance(c, ast.ClassDef):
+                    continue
+                scan_calls(n, c, env)
+
+        def one_call(n, c, env):
+            f = c.func
+            args = list(c.args) + [k.value for k in c.keywords]
+            alev = [lvl(n, a, env) for a in args]
+            if isinstance(f, ast.Attribute):
+                b = lvl(n, f.value, env)
+                if b > 0:
+                    if f.attr in _TABLE_MUTATORS:
+                        out.writes.append((fn, c, "%s changes %s in place" % (src(fn, c), "the table" if b == 2 else "a row of the table")))
+                    elif f.attr not in _TABLE_READERS:
+                        out.unknown.append((fn, c, "%s: method .%s of the table" % (src(fn, c), f.attr)))
+                    return
+                if max(alev or [0]) > 0 and f.attr in _INSERTERS and not callees_of(c):
+                    out.unknown.append((fn, c, "%s puts the table / a row into another container" % src(fn, c)))
+                    return
+            if max(alev or [0]) == 0:
+                return
+            if isinstance(f, ast.Name) and (f.id in _SCALAR_BUILTINS or f.id in _DEEP_COPIERS or f.id in _ROW_CARRIERS):
+                return
+            if isinstance(f, ast.Attribute) and call_tail(c) in _DEEP_COPIERS:
+                return
+            cs = callees_of(c)
+            if not cs:
+                out.unknown.append((fn, c, "%s: handed to `%s`, which is not a function of the package" % (
+                    src(fn, c), call_name(c) or src(fn, f))))
+                return
+            out.handed.append((c, [x.qual for x in cs]))
+            for callee in cs:
+                rts = tu._bind_args(callee, c, [None if isinstance(a, ast.Starred) else lvl(n, a, env) for a in c.args],
+                                    [(k.arg, lvl(n, k.value, env)) for k in c.keywords])
+                if rts is None:
+                    out.unknown.append((fn, c, "%s: cannot match the arguments with the parameters of %s" % (src(fn, c), short(callee))))
+                    continue
+                if not rts:
+                    continue
+                s = tu.summary(callee, rts, depth - 1)
+                what_ = ", ".join("%s%s" % (p, "" if l == 2 else " (a row)") for (p, l) in sorted(rts.items()))
+                for (wf, wn, wt) in s.writes:
+                    out.writes.append((fn, c, "%s hands it to %s as `%s`, and there %s (line %s)" % (
+                        src(fn, c), short(callee), what_, wt, getattr(wn, "lineno", "?"))))
+                for (wf, wn, wt) in s.unknown:
+                    out.unknown.append((fn, c, "%s -> %s: %s" % (src(fn, c), short(callee), wt)))
+
+        rets = []
+        for n in nodes:
+            if id(n.ast) in skip:
+                continue
+            a = n.ast
+            for t in flat(targets_of(n)):
+                if isinstance(t, ast.Subscript):
+                    b = lvl(n, t.value, {})
+                    if b > 0:
+                        out.writes.append((fn, a, "%s stores into %s" % (
+                            src(fn, a), "the table (a whole row is replaced / removed)" if b == 2 else "a row of the table")))
+                    elif n.kind == "stmt" and isinstance(a, (ast.Assign, ast.AnnAssign)) and lvl(n, a.value, {}) > 0:
+                        out.unknown.append((fn, a, "%s puts the table / a row into another container" % src(fn, a)))
+                elif isinstance(t, ast.Attribute):
+                    if n.kind == "stmt" and isinstance(a, (ast.Assign, ast.AnnAssign)) and lvl(n, a.value, {}) > 0:
+                        out.unknown.append((fn, a, "%s keeps the table / a row in an attribute" % src(fn, a)))
+                elif isinstance(t, ast.Name) and isinstance(a, ast.AugAssign) and n.kind == "stmt" \
+                        and name_level(n, t.id, {}) > 0:
+                    out.writes.append((fn, a, "%s changes %s in place" % (src(fn, a), t.id)))
+            for e in node_exprs(n):
+                scan_calls(n, e, {})
+            if n.kind == "stmt" and isinstance(a, (ast.FunctionDef, ast.AsyncFunctionDef)):
+                # a nested function works on the enclosing function's objects through its free variables
+                bound = {x.arg for x in ast.walk(a.args) if isinstance(x, ast.arg)}
+                bound |= {x.id for b_ in a.body for x in ast.walk(b_) if isinstance(x, ast.Name) and isinstance(x.ctx, ast.Store)}
+                cap = {}
+                for b_ in a.body:
+                    for x in ast.walk(b_):
+                        if isinstance(x, ast.Name) and isinstance(x.ctx, ast.Load) and x.id not in bound:
+                            l = max([v_ for ((_d, nm_), v_) in lev.items() if nm_ == x.id] +
+                                    [roots.get(x.id, 0) if (x.id in fn.params or x.id not in local_names) else 0])
+                            if l > 0:
+                                cap[x.id] = l
+                if cap:
+                    nf = fn.nested.get(a.name)
+                    if nf is None:
+                        out.unknown.append((fn, a, "`%s` is captured by the nested function %s" % (", ".join(sorted(cap)), a.name)))
+                    else:
+                        s_ = tu.summary(nf, cap, depth - 1)
+                        for (wf, wn, wt) in s_.writes:
+                            out.writes.append((fn, a, "the nested function %s works on `%s` of the enclosing function, and there %s "
+                                               "(line %s)" % (a.name, ", ".join(sorted(cap)), wt, getattr(wn, "lineno", "?"))))
+                        for (wf, wn, wt) in s_.unknown:
+                            out.unknown.append((fn, a, "nested function %s: %s" % (a.name, wt)))
+            if n.kind == "stmt" and isinstance(a, ast.Return) and a.value is not None:
+                rets.append((n, a.value))
+        if rets:
+            out.ret = max(lvl(n, v, {}) for (n, v) in rets)
+            if all(isinstance(v, ast.Tuple) for (_n, v) in rets) and len({len(v.elts) for (_n, v) in rets}) == 1:
+                out.ret_elts = [max(lvl(n, v.elts[i], {}) for (n, v) in rets) for i in range(len(rets[0][1].elts))]
+                out.ret = max(out.ret_elts or [0])
+        return out
+
+
+def ek_confinement_rule(r, fn, what, idx):
+    """The flow table of one Edmonds-Karp copy is written by nothing but the recognised augmentation stores
+    (sites: creation of the table, every call that receives it)."""
+    ek = EK(fn)
+    cfg, ff = ek.cfg, ek.ff
+    fdefs = [n for n in cfg.stmt_nodes() if n.kind == "stmt" and isinstance(n.ast, ast.Assign)
+             and [attr_path(t) for t in n.ast.targets] == [ff]]
+    if len(fdefs) != 1:
+        raise AnchorVanished("%s: single initialisation of %s" % (fn.qual, ff))
+    r.site(fn, fdefs[0].ast, "flow table created")
+    tu = TableUse(idx)
+    s = tu.analyse(fn, forced={(fdefs[0].id, ff): 2}, skip={id(n.ast) for n in ek.upd}, root=True)
+    r.count(s.states + sum(x.states for x in tu.memo.values()))
+    for (c, quals) in s.handed:
+        r.site(fn, c, "flow table handed to %s" % ", ".join(q.split(":", 1)[1] for q in quals))
+    seen = set()
+    for (wf, wn, wt) in s.writes:
+        if id(wn) in seen:
+            continue
+        seen.add(id(wn))
+        r.violation(fn, fn.loc(wn), "%s: the flow table %s is changed outside the augmentation along an augmenting path: %s. "
+                    "Only the pair %s[u][v] += d / %s[v][u] -= d over every edge of a source-to-sink path keeps the table a "
+                    "flow (conservation at every server and share vertex); a unit recorded on a server->share edge without "
+                    "its share->sink unit leaves the share reachable for a second server, so the matching is smaller than "
+                    "the maximum" % (what, ff, wt, ff, ff))
+    if s.unknown and not s.writes:
+        raise AnalysisError("%s: cannot decide who may change the flow table %s: %s" % (
+            fn.qual, ff, "; ".join("%s (line %s)" % (t, getattr(n_, "lineno", "?")) for (_f, n_, t) in s.unknown[:3])))
+    return s
+
+
+# ===================================== state that outlives a call (C08.6; rule 16 for the placement)
+def call_closure(idx, roots):
+    """{qual: FuncInfo} of the package functions reachable from `roots` through resolvable calls (and their nested
+    functions)."""
+    cg = get_callgraph(idx)
+    seen = {}
+    work = list(roots)
+    while work:
+        fn = work.pop()
+        if fn.qual in seen:
+            continue
+        seen[fn.qual] = fn
+        work.extend(fn.nested.values())
+        for (_c, targets) in cg.callees(fn):
+            work.extend(t for t in targets if isinstance(t, FuncInfo))
+    return seen
+
+
+def _root_name(e):
+    while isinstance(e, (ast.Attribute, ast.Subscript, ast.Call)):
+        e = e.func if isinstance(e, ast.Call) else e.value
+    return e.id if isinstance(e, ast.Name) else None
+
+
+def _first_attr(e):
+    """N.a.b[..] -> 'a' (the attribute taken directly from the root name), None when the root is subscripted/called."""
+    prev = None
+    while isinstance(e, (ast.Attribute, ast.Subscript, ast.Call)):
+        prev = e
+        e = e.func if isinstance(e, ast.Call) else e.value
+    return prev.attr if isinstance(prev, ast.Attribute) else None
+
+
+def _locals_of(fn):
+    """Names that are local in fn (parameters and stored names that are not declared global), enclosing functions'
+    locals included."""
+    out = set()
+    f = fn
+    while f is not None:
+        decl = {nm for x in func_own_nodes(f) if isinstance(x, (ast.Global, ast.Nonlocal)) for nm in x.names}
+        own = set(f.params)
+        for x in func_own_nodes(f, into_lambda=False):
+            if isinstance(x, ast.Name) and isinstance(x.ctx, (ast.Store, ast.Del)):
+                own.add(x.id)
+            elif isinstance(x, (ast.FunctionDef, ast.AsyncFunctionDef, ast.ClassDef)):
+                own.add(x.name)
+            elif isinstance(x, (ast.Import, ast.ImportFrom)):
+                own.update((al.asname or al.name).split(".")[0] for al in x.names)
+            elif isinstance(x, ast.ExceptHandler) and x.name:
+                own.add(x.name)
+        out |= (own - decl) if f is fn else own
+        f = f.parent
+    return out
+
+
+class ModuleState:
+    """Objects of one module that live longer than a call and are changed at run time (from inside a function):
+    module-level names re-bound through `global`, module-level containers changed in place, attributes set on
+    module-level functions / classes / objects.  `real` keeps those whose stored values depend on a parameter of the
+    storing function or on such state itself (what was stored depends on earlier calls); a value computed once from
+    nothing but constants (lazily built table) is not state of earlier calls."""
+
+    def __init__(self, idx, module):
+        self.module = module
+        self.names = {}      # name -> [(fn, stmt/call node, [value exprs])]
+        self.attrs = {}      # (name, attr) -> [(fn, node, [value exprs])]
+        top = set(module.assigns) | set(module.funcs) | set(module.classes)
+        for fn in idx.funcs.values():
+            if fn.module is not module or isinstance(fn.node, ast.Lambda):
+                continue
+            decl = {nm for x in func_own_nodes(fn) if isinstance(x, ast.Global) for nm in x.names}
+            loc = _locals_of(fn)
+            # a local that is just another name of a module-level object: L = N
+            alias = {}
+            for x in func_own_nodes(fn):
+                if isinstance(x, ast.Assign) and len(x.targets) == 1 and isinstance(x.targets[0], ast.Name) \
+                        and isinstance(x.value, ast.Name) and x.value.id not in loc and (x.value.id in top or x.value.id in decl):
+                    alias[x.targets[0].id] = x.value.id
+            loc = loc - set(alias)
+
+            def rootn(e, _a=alias):
+                rn = _root_name(e)
+                return _a.get(rn, rn)
+            for x in func_own_nodes(fn, into_lambda=True):
+                tg, vals = [], []
+                if isinstance(x, ast.Assign):
+                    tg, vals = list(x.targets), [x.value]
+                elif isinstance(x, ast.AugAssign):
+                    tg, vals = [x.target], [aug_value(x)]
+                elif isinstance(x, ast.AnnAssign) and x.value is not None:
+                    tg, vals = [x.target], [x.value]
+                elif isinstance(x, ast.Delete):
+                    tg = list(x.targets)
+                elif isinstance(x, (ast.For, ast.AsyncFor)):
+                    tg, vals = [x.target], [x.iter]
+                elif isinstance(x, ast.NamedExpr):
+                    tg, vals = [x.target], [x.value]
+                elif isinstance(x, ast.Call) and isinstance(x.func, ast.Attribute) and x.func.attr in _MUTATORS:
+                    rn = rootn(x.func.value)
+                    if rn is not None and rn not in loc and (rn in top or rn in decl):
+                        vs = list(x.args) + [k.value for k in x.keywords]
+                        fa = _first_attr(x.func.value)
+                        if fa is None:
+                            self.names.setdefault(rn, []).append((fn, x, vs))
+                        else:
+                            self.attrs.setdefault((rn, fa), []).append((fn, x, vs))
+                    continue
+                stack = list(tg)
+                while stack:
+                    t = stack.pop()
+                    if isinstance(t, (ast.Tuple, ast.List)):
+                        stack.extend(t.elts)
+                    elif isinstance(t, ast.Starred):
+                        stack.append(t.value)
+                    elif isinstance(t, ast.Name):
+                        if t.id in decl:
+                            self.names.setdefault(t.id, []).append((fn, x, vals))
+                    elif isinstance(t, (ast.Subscript, ast.Attribute)):
+                        rn = rootn(t)
+                        if rn is None or rn in loc or not (rn in top or rn in decl):
+                            continue
+                        extra = [t.slice] if isinstance(t, ast.Subscript) else []
+                        fa = _first_attr(t)
+                        if fa is None:
+                            self.names.setdefault(rn, []).append((fn, x, vals + extra))
+                        else:
+                            self.attrs.setdefault((rn, fa), []).append((fn, x, vals + extra))
+        every = set(self.names) | {k[0] for k in self.attrs}
+
+        def real(recs):
+            for (fn, _x, vals) in recs:
+                ps = set(fn.params)
+                for v in vals:
+                    if depends_on(fn, v) & (ps | every):
+                        return True
+            return False
+        self.real_names = {k for (k, v) in self.names.items() if real(v)}
+        self.real_attrs = {k for (k, v) in self.attrs.items() if real(v)}
+
+    def how(self, key):
+        recs = self.names.get(key) if isinstance(key, str) else self.attrs.get(key)
+        return ", ".join(sorted({"%s line %s" % (short(f), getattr(x, "lineno", "?")) for (f, x, _v) in recs or []}))
+
+
+def _mutable_default_state(fn):
+    """Parameters of fn whose default is one mutable object (created when the function is defined) that fn changes in
+    place: the object carries data from call to call."""
+    a = getattr(fn.node, "args", None)
+    if a is None:
+        return set()
+    pos = list(getattr(a, "posonlyargs", [])) + list(a.args)
+    pairs = list(zip(pos[len(pos) - len(a.defaults):], a.defaults)) + \
+        [(p, d) for (p, d) in zip(a.kwonlyargs, a.kw_defaults) if d is not None]
+    out = set()
+    for (p, d) in pairs:
+        if not fresh_mutable(d):
+            continue
+        for x in func_own_nodes(fn, into_lambda=True):
+            hit = False
+            if isinstance(x, ast.Call) and isinstance(x.func, ast.Attribute) and x.func.attr in _MUTATORS \
+                    and _root_name(x.func.value) == p.arg:
+                hit = True
+            elif isinstance(x, (ast.Assign, ast.AugAssign, ast.Delete)):
+                for t in (x.targets if isinstance(x, (ast.Assign, ast.Delete)) else [x.target]):
+                    if isinstance(t, (ast.Subscript, ast.Attribute)) and _root_name(t) == p.arg:
+                        hit = True
+            if hit:
+                out.add(p.arg)
+    return out
+
+
+def state_feeds(fn, ms: ModuleState, closure, cg):
+    """[(ast node, state name, text)]: places of fn where state that outlives the call can reach what fn computes:
+    a branch / loop / assertion on it (unless all it guards is book-keeping of that state or logging), a returned
+    value, an argument of another function of the computation, a store into a parameter's object."""
+    loc = _locals_of(fn)
+    names = {k for k in ms.real_names if k not in loc}
+    attrs = {k for k in ms.real_attrs if k[0] not in loc}
+    dflt = _mutable_default_state(fn)
+    names |= dflt
+    if not names and not attrs:
+        return []
+    why = {}
+
+    def touched(e):
+        """State names the expression reads (directly, or through a tainted local)."""
+        got = set()
+        if e is None:
+            return got
+        for x in own_nodes(e, into_lambda=True):
+            if isinstance(x, ast.Name) and isinstance(x.ctx, ast.Load):
+                if x.id in names:
+                    got.add(x.id)
+                elif x.id in why:
+                    got |= why[x.id]
+            elif isinstance(x, ast.Attribute) and isinstance(x.value, ast.Name) and (x.value.id, x.attr) in attrs:
+                got.add("%s.%s" % (x.value.id, x.attr))
+        return got
+    defs = def_exprs(fn)
+    for _ in range(8):
+        changed = False
+        for (nm, exprs) in defs.items():
+            if "." in nm or nm in names:
+                continue
+            if nm not in loc:
+                continue
+            got = set()
+            for v in exprs:
+                got |= touched(v)
+            if got - why.get(nm, set()):
+                why[nm] = why.get(nm, set()) | got
+                changed = True
+        if not changed:
+            break
+
+    def is_state_target(t):
+        if isinstance(t, (ast.Tuple, ast.List)):
+            return all(is_state_target(x) for x in t.elts)
+        if isinstance(t, ast.Name):
+            return t.id in names
+        rn = _root_name(t)
+        if rn in names:
+            return True
+        fa = _first_attr(t)
+        return fa is not None and (rn, fa) in attrs
+
+    def in_closure(c):
+        return any(isinstance(f, FuncInfo) and f.qual in closure for f in cg.resolve(fn, c))
+
+    def exempt(st):
+        """Book-keeping of the state itself, or a call that leaves the computation (logging)."""
+        if isinstance(st, (ast.Pass, ast.Global, ast.Nonlocal)):
+            return True
+        if isinstance(st, ast.Expr):
+            v = st.value
+            if isinstance(v, ast.Constant):
+                return True
+            if isinstance(v, ast.Call):
+                if isinstance(v.func, ast.Attribute) and (_root_name(v.func.value) in names or
+                                                          (_root_name(v.func.value), _first_attr(v.func.value)) in attrs):
+                    return True
+                if in_closure(v):
+                    return False
+                if isinstance(v.func, ast.Attribute) and _root_name(v.func.value) in loc:
+                    return False
+                return True
+            return False
+        if isinstance(st, (ast.Assign, ast.AugAssign, ast.AnnAssign)):
+            tg = st.targets if isinstance(st, ast.Assign) else [st.target]
+            return all(is_state_target(t) for t in tg)
+        if isinstance(st, ast.If):
+            return all(exempt(s) for s in st.body + st.orelse)
+        return False
+    out = []
+
+    def hit(node, got, text):
+        for s in sorted(got):
+            out.append((node, s, text))
+
+    def visit(stmts):
+        for st in stmts:
+            if isinstance(st, ast.If):
+                got = touched(st.test)
+                if got and not all(exempt(s) for s in st.body + st.orelse):
+                    hit(st.test, got, "the branch on `%s`" % src(fn, st.test))
+                visit(st.body)
+                visit(st.orelse)
+            elif isinstance(st, ast.While):
+                got = touched(st.test)
+                if got and not all(exempt(s) for s in st.body + st.orelse):
+                    hit(st.test, got, "the loop test `%s`" % src(fn, st.test))
+                visit(st.body)
+                visit(st.orelse)
+            elif isinstance(st, (ast.For, ast.AsyncFor)):
+                got = touched(st.iter)
+                if got and not all(exempt(s) for s in st.body + st.orelse):
+                    hit(st.iter, got, "the loop over `%s`" % src(fn, st.iter))
+                visit(st.body)
+                visit(st.orelse)
+            elif isinstance(st, ast.Return):
+                got = touched(st.value)
+                if got:
+                    hit(st, got, "the returned value `%s`" % src(fn, st.value))
+            elif isinstance(st, ast.Assert):
+                got = touched(st.test)
+                if got:
+                    hit(st, got, "the assertion `%s`" % src(fn, st.test))
+            elif isinstance(st, (ast.Assign, ast.AugAssign, ast.AnnAssign)):
+                tg = st.targets if isinstance(st, ast.Assign) else [st.target]
+                got = touched(st.value)
+                for t in tg:
+                    if isinstance(t, (ast.Subscript, ast.Attribute)) and not is_state_target(t):
+                        g2 = got | (touched(t.slice) if isinstance(t, ast.Subscript) else set())
+                        rn = _root_name(t)
+                        if g2 and rn in set(fn.params) - dflt:
+                            hit(st, g2, "the store `%s` into an object the caller passed in" % src(fn, st))
+            elif isinstance(st, ast.Expr):
+                v = st.value
+                if isinstance(v, ast.Call) and in_closure(v):
+                    got = set()
+                    for a_ in list(v.args) + [k.value for k in v.keywords]:
+                        got |= touched(a_)
+                    if got:
+                        hit(st, got, "the argument of `%s`" % src(fn, v))
+                elif isinstance(v, (ast.Yield, ast.YieldFrom, ast.Await)):
+                    got = touched(v.value)
+                    if got:
+                        hit(st, got, "the yielded value `%s`" % src(fn, v))
+            elif isinstance(st, (ast.With, ast.AsyncWith)):
+                visit(st.body)
+            elif isinstance(st, ast.Try):
+                visit(st.body)
+                for h in st.handlers:
+                    visit(h.body)
+                visit(st.orelse)
+                visit(st.finalbody)
+    visit(fn.body)
+    return [(n, s, t, "a mutable default argument of %s" % short(fn) if s in dflt else ms.how(
+        s if "." not in s or s in ms.names else tuple(s.split(".", 1)))) for (n, s, t) in out]
+
+
+def no_persistent_state_rule(r, idx, roots, what):
+    """No function of the computation rooted at `roots` lets state that outlives a call reach its result
+    (sites: the functions of the computation)."""
+    cg = get_callgraph(idx)
+    closure = call_closure(idx, roots)
+    states = {}
+    n_ = 0
+    for q in sorted(closure):
+        fn = closure[q]
+        if isinstance(fn.node, ast.Lambda):
+            continue
+        r.site(fn, None, "function of the computation")
+        ms = states.get(fn.module.name)
+        if ms is None:
+            ms = states[fn.module.name] = ModuleState(idx, fn.module)
+        n_ += len(fn.cfg().nodes)
+        seen = set()
+        for (node, s, text, how) in state_feeds(fn, ms, closure, cg):
+            if (id(node), s) in seen:
+                continue
+            seen.add((id(node), s))
+            r.violation("%s[%s]" % (fn.qual, s), fn.loc(node), "%s: in %s %s depends on `%s`, which outlives the call and is "
+                        "changed at run time (%s): the result is no longer a function of the arguments' current contents - "
+                        "a second call after the caller changed its mapping in place can be answered from what an earlier "
+                        "call saw" % (what, short(fn), text, s, how))
+    r.count(n_)
+    return closure
 
 
 # ============================================ emptiness facts / key provenance (rules 9-11)
@@ -3219,6 +4024,22 @@ def run(ctx: Context):
                                              gate_edge=out_of):
                 r.violation(mb, mb.loc(), "mark_bad_peer(%s) can end with %s still in %s: the next placement gives shares to a "
                             "server that failed" % (p_, p_, S), w)
+
+    # ----------------------------------------------------------------- 15
+    with ctx.rule("C07.15", "R5", "the matching that becomes the placement always starts from and stays a flow: the flow "
+                  "table of _compute_maximum_graph (created zero, rule 6) is written by nothing but the augmentation pair "
+                  "along an augmenting path - no function it is handed to (residual_network, any other), no alias, no row "
+                  "object taken from it stores into it (interprocedural who-writes analysis)", expected=2) as r:
+        ek_confinement_rule(r, idx.func(MAXG), "placement matching", idx)
+
+    # ----------------------------------------------------------------- 16
+    with ctx.rule("C07.16", "R2", "the placement is a function of what share_placement is given: in no function of its "
+                  "computation (share_placement and everything it calls in the package) does state that outlives the call "
+                  "- a module-level name re-bound through `global`, a module-level container or a function/class attribute "
+                  "changed from inside a function with values that depend on the arguments, a mutable default argument "
+                  "changed in place - reach a branch, a returned value or an argument of another function of the "
+                  "computation", expected=13) as r:
+        no_persistent_state_rule(r, idx, [sp], "share placement")
 
 
 def reach_from_within(cfg, a, b, head) -> bool:
